@@ -13,6 +13,7 @@ CONSTANTS MaxCalls,      \* bound on the number of public calls in a history
           Limits,        \* set of size / level / stack limits (Unl = -1 is always included)
           MaxM,          \* set of max_motifs_per_node values
           Ops,           \* set of op names enabled in Next
+          FailAts,       \* set of injected solver-failure positions (0 = none)
           EmitFrom       \* Emit prints the history of idle states with at least this many calls
 
 VARIABLES S, D, fr, calls, hist, plain
@@ -22,14 +23,14 @@ FileNets == IF NetMode = "file" THEN ndJsonDeserialize("catalogue.ndjson") ELSE 
 Nets == IF NetMode = "all2" THEN AllNets2 ELSE {FileNets[i].net : i \in DOMAIN FileNets}
 
 Lims == Limits \cup {Unl}
-Cfg(m) == [maxm |-> m]
+Cfg(m, f) == [maxm |-> m, failat |-> f]
 VARIABLE cfg
 
 allvars == <<S, D, fr, calls, hist, cfg, plain>>
 view == <<S.nt, D, fr, calls, cfg, plain>>
 
 Init == /\ \E nt \in Nets : S = SemOf(nt)
-        /\ cfg \in {Cfg(m) : m \in MaxM}
+        /\ cfg \in {Cfg(m, f) : m \in MaxM, f \in FailAts}
         /\ D = NewDiagram(S)
         /\ fr = Idle
         /\ calls = 0
@@ -77,8 +78,9 @@ NewCall ==
               Begin(MinBegin(n, z, sk, MtsOrder(D.nodes[n].space)), <<"min", n, z, sk>>)
        \/ "aseeds" \in Ops /\ \E z \in Lims : Begin(ASeedsBegin(z, MtsOrder(D.nodes[1].space)), <<"aseeds", z>>)
        \/ "skipmin" \in Ops /\ \E n \in Ids(D) :
-              LET r == SkipToMinimal(S, D, n, MtsOrder(D.nodes[n].space)) IN Atomic(r[1], r[2], <<"skipmin", n>>)
-       \/ "skiprem" \in Ops /\ LET r == SkipRemaining(S, D, MtsOrder(D.nodes[1].space)) IN Atomic(r[1], "n", <<"skiprem">>)
+              LET r == SkipToMinimal(S, D, n, MtsOrder(D.nodes[n].space), cfg.failat = 1) IN Atomic(r[1], r[2], <<"skipmin", n>>)
+       \/ "skiprem" \in Ops /\ IF cfg.failat = 1 THEN Atomic(D, "error", <<"skiprem">>)
+                               ELSE LET r == SkipRemaining(S, D, MtsOrder(D.nodes[1].space)) IN Atomic(r[1], "n", <<"skiprem">>)
        \/ "cand" \in Ops /\ \E n \in Ids(D) : \E C \in CandChoices(n) :
               LET r == CandCall(D, n, Known(C)) IN Atomic(r[1], "ok", <<"cand", n>>)
        \/ "seeds" \in Ops /\ \E n \in Ids(D) : \E C \in CandChoices(n) :
@@ -116,7 +118,7 @@ Inv_FullExact == (OnlyPlain /\ (Completed("bfs") \/ Completed("dfs")) /\ fr.star
 \* C03: completed strategies from the root (after any prefix) have exactly the minimal trap spaces
 Inv_MinExact == ( \/ ((Completed("bfs") /\ fr.limlvl = Unl) \/ (Completed("dfs") /\ fr.limstk = Unl) \/ Completed("min")) /\ fr.start = 1
                   \/ Completed("aseeds")
-                  \/ (fr.done /\ fr.op = "skiprem") )
+                  \/ (fr.done /\ fr.op = "skiprem" /\ fr.ret # "error") )
                 => MinExact(S, D)
 \* C15: True means completed; a size-limited False means an unexpanded node remains
 Inv_RetFalse == (fr.done /\ fr.op \in {"bfs", "dfs", "min", "aseeds", "tgt"} /\ fr.ret = "false"
@@ -130,6 +132,6 @@ Inv_Seeds == (fr.done /\ AllExpanded /\ AllSeedsKnown(D, Ids(D)))
                 /\ ((\A n \in Ids(D) : ~D.nodes[n].skipped) \/ NoMAA(S)) => SeedBijection(S, D, Ids(D))
 
 \* schedule emission: one history per distinct idle abstract state (hist is outside the VIEW)
-Emit == (fr.done /\ calls >= EmitFrom) => PrintT(ToJson([net |-> S.nt, maxm |-> cfg.maxm, hist |-> hist]))
+Emit == (fr.done /\ calls >= EmitFrom) => PrintT(ToJson([net |-> S.nt, maxm |-> cfg.maxm, failat |-> cfg.failat, hist |-> hist]))
 Constraint == TRUE
 =============================================================================
